@@ -62,6 +62,8 @@ void h_bufGet1(void)
 	VREACH();
 }
 
+/* bufNext1 has no job: its only caller is os_win32.c (console input), not a library-file reader.
+ * Run by hand it shows the read at pos == argc (outside the contents). */
 void h_bufNext1(void)
 {
 	BUF_INPUTS;
